@@ -20,13 +20,13 @@ open W7
     dropping the context forgets it; nothing else touches it (in particular not the `connect` event with the client's own
     CONNECT options) -/
 def maxStep (acc : Option Nat) : Obs → Option Nat
-  | .ret _ (.connack k) => k.maxPacketSize <|> acc
-  | .ret _ (.connectError k) => k.maxPacketSize <|> acc
+  | .ret _ (.connack k) => k.maxPacketSize
+  | .ret _ (.connectError k) => k.maxPacketSize
   | .ev .dropCtx => none
   | _ => acc
 
-/-- **the limit in force according to the transcript**: the Maximum Packet Size of the most recent CONNACK that carried
-    one since the context was created -/
+/-- **the limit in force according to the transcript**: the Maximum Packet Size of the most recent CONNACK (absent there =
+    no limit) since the context was created -/
 def announcedMax (out : List Obs) : Option Nat := out.foldl maxStep none
 
 /-- the one line after which the transcript no longer tells the limit: the CONNACK that made `connect()` panic
@@ -79,7 +79,7 @@ theorem MaxRel.of_outExt {w w' : World} (hc : w'.hasCtx = w.hasCtx) (ht : w'.tas
   obtain ⟨pre, hq, e⟩ := ho
   exact .of_neutral hc ht pre e (maxNeutral_quiet hq) hm
 
-theorem handleConnack_maxPkt (c : Ctx) (k : ConnackRx) : (c.handleConnack k).maxPkt = (k.maxPacketSize <|> c.maxPkt) :=
+theorem handleConnack_maxPkt (c : Ctx) (k : ConnackRx) : (c.handleConnack k).maxPkt = k.maxPacketSize :=
   (maxPkt_from_connack c k).1
 
 theorem firstEnd_maxRel {w r : World} {call : Call} {t : ConnectTx} {a : AuthTx} (h : FirstEnd w call t a r)
